@@ -393,6 +393,8 @@ class RefPeer:
         self.raw_first_block_len = 0
         self.max_packet_seen = 0
         self.ext_info_received: List[Dict[bytes, bytes]] = []
+        self.send_hook: Optional[Callable[[bytes], None]] = None
+        self.sent_log: List[Tuple[int, int]] = []
 
     # ---------------------------------------------------------- sending --
 
@@ -450,12 +452,28 @@ class RefPeer:
     def send(self, payload: bytes, padlen_extra: int = 0) -> None:
         """Queue one packet"""
 
+        if self.send_hook is not None:
+            hook, self.send_hook = self.send_hook, None
+            try:
+                hook(payload)           # may call send() to inject first
+            finally:
+                if self.send_hook is None:
+                    self.send_hook = hook
+
+        self.sent_log.append((self.send_seq, payload[0]))
         self.out.append(self._frame(payload, padlen_extra))
 
         if payload[:1] == byte(MSG_NEWKEYS):
             self._activate_send()
         elif payload[:1] == byte(MSG_USERAUTH_SUCCESS) and not self.client:
             self._auth_success_seen(sending=True)
+
+    def send_plain(self, payload: bytes) -> None:
+        """Queue one packet without any of refpeer's own state transitions
+        (used for injected, out-of-phase messages)"""
+
+        self.sent_log.append((self.send_seq, payload[0]))
+        self.out.append(self._frame(payload))
 
     def send_raw(self, data: bytes) -> None:
         self.out.append(data)
